@@ -6,8 +6,10 @@ Two layers.
 
 * **Buffer core** (`Buf`): the `pendingWrites` map and the `duplicateWrites` slice of one internal
   transaction as pure lists, `Buf.add` = the last five lines of `Txn.modify`, `Buf.emit` = the
-  order in which `commitAndSend` hands the entries to the write channel (`pendingWrites` first,
-  then `duplicateWrites`), `Buf.emitFixed` = the intended order (`fix:` duplicates first).
+  order in which `commitAndSend` hands the entries to the write channel: `duplicateWrites` (the
+  overwritten, older writes) first, then `pendingWrites` (since badger commit 2dbbdab, the fix of
+  finding F8). `Buf.emitOld` is the order before that commit (`pendingWrites` first), kept for
+  the historical counterexample only.
   `batchRun` is the whole batch over an arbitrary *split oracle* (`full i` says that the `i`-th
   accepted operation found the internal transaction full, i.e. `modify` answered `ErrTxnTooBig`,
   so `handleEntry` committed, renewed the transaction and retried).
@@ -42,14 +44,15 @@ def effVer (cts : Nat) (v : Nat) : Nat := if v == 0 then cts else v
 
 def Ent.atTs (cts : Nat) (e : Ent) : Ent := { e with ver := effVer cts e.ver }
 
-/-- the order of `commitAndSend`: `for _, e := range txn.pendingWrites {…}` then
-    `for _, e := range txn.duplicateWrites {…}`. -/
-def Buf.emit (b : Buf) : List Ent := b.pending ++ b.dups
+/-- the order of `commitAndSend`: `for _, e := range txn.duplicateWrites {…}` then
+    `for _, e := range txn.pendingWrites {…}` (older, overwritten writes first). -/
+def Buf.emit (b : Buf) : List Ent := b.dups ++ b.pending
 
-/-- the intended order (`fix:` of finding F8): duplicates (older writes) first. -/
-def Buf.emitFixed (b : Buf) : List Ent := b.dups ++ b.pending
+/-- the order of `commitAndSend` BEFORE badger commit 2dbbdab (finding F8): `pendingWrites`
+    first. Not today's code. -/
+def Buf.emitOld (b : Buf) : List Ent := b.pending ++ b.dups
 
-/-- the exact side condition under which the code's order is harmless: no `duplicateWrites`
+/-- the exact side condition under which the OLD order was harmless: no `duplicateWrites`
     entry collides, after `setVersion`, with the `pendingWrites` entry of its key. -/
 def Buf.NoClash (cts : Nat) (b : Buf) : Prop :=
   ∀ d ∈ b.dups, ∀ p ∈ b.pending, d.key = p.key → effVer cts d.ver ≠ effVer cts p.ver
@@ -85,7 +88,7 @@ def assignTs (managed : Bool) (ts0 : Nat) : List (List Ent) → List Seg
 
 /-- what one internal transaction sends to the write channel, with versions resolved -/
 def Seg.emitted (s : Seg) : List Ent := ((Buf.addAll {} s.ops).emit).map (Ent.atTs s.cts)
-def Seg.emittedFixed (s : Seg) : List Ent := ((Buf.addAll {} s.ops).emitFixed).map (Ent.atTs s.cts)
+def Seg.emittedOld (s : Seg) : List Ent := ((Buf.addAll {} s.ops).emitOld).map (Ent.atTs s.cts)
 /-- what the spec says it wrote: the operations in issue order, versions resolved -/
 def Seg.issued (s : Seg) : List Ent := s.ops.map (Ent.atTs s.cts)
 def Seg.NoClash (s : Seg) : Prop := (Buf.addAll {} s.ops).NoClash s.cts
@@ -94,7 +97,7 @@ instance (s : Seg) : Decidable s.NoClash := by unfold Seg.NoClash; exact inferIn
 
 /-- the write stream of the whole batch (what reaches the memtable, in order) -/
 def batchEmitted (segs : List Seg) : List Ent := (segs.map Seg.emitted).flatten
-def batchEmittedFixed (segs : List Seg) : List Ent := (segs.map Seg.emittedFixed).flatten
+def batchEmittedOld (segs : List Seg) : List Ent := (segs.map Seg.emittedOld).flatten
 /-- the specification stream: every issued operation, in issue order -/
 def batchIssued (segs : List Seg) : List Ent := (segs.map Seg.issued).flatten
 
@@ -104,6 +107,10 @@ def applyWrites (mem : List Ent) (ws : List Ent) : List Ent := ws.foldl (fun m e
 /-- the batch run against a memtable, by split oracle -/
 def batchRun (managed : Bool) (ts0 : Nat) (full : Nat → Bool) (ops : List Ent) (mem : List Ent) : List Ent :=
   applyWrites mem (batchEmitted (assignTs managed ts0 (segments full 0 [] ops)))
+
+/-- the same with the emission order before commit 2dbbdab (historical) -/
+def batchRunOld (managed : Bool) (ts0 : Nat) (full : Nat → Bool) (ops : List Ent) (mem : List Ent) : List Ent :=
+  applyWrites mem (batchEmittedOld (assignTs managed ts0 (segments full 0 [] ops)))
 
 /-! ## Concrete machine on `Db` -/
 
@@ -139,27 +146,16 @@ def wbNew (d : Db) (kind : WbKind) (baseId : Nat) : Option (Db × WB) :=
     let (d, _) := d.begin baseId true 0
     some (d, { txn := baseId, nextId := baseId + 1, isManaged := true })
 
-/-- `Txn.CommitWith(cb)` with the commit timestamp `txn.commitTs = cts`, the write applied
-    synchronously; the `CommitRes` is what the callback receives. `commitPrecheck` looks at
-    `pendingWrites` only (not at `duplicateWrites`) when it decides whether a zero commit
-    timestamp is an error; past the precheck the path is `Db.commit` (whose own zero-timestamp
-    test looks at both lists and is implied by this one). -/
-def Db.commitWith (d : Db) (id cts : Nat) : Db × CommitRes :=
-  match d.findTxn id with
-  | none => (d, .err "err:discarded")
-  | some t =>
-    if !t.pending.isEmpty && !t.discarded && t.pending.all (·.ver == 0) && d.opts.managed && cts == 0
-    then (d, .err "err:zerocommitts")
-    else d.commit id cts
-
 /-- `WriteBatch.commit` (caller holds the lock). Returns the error it returns. -/
 def wbCommit (d : Db) (w : WB) : Db × WB × Option String :=
   match w.err with
   | some e => (d, w, some e)                                    -- `if err := wb.Error(); err != nil`
   | none =>
     if w.finished then (d, w, some "err:commitafterfinish") else
-    -- `wb.throttle.Do()`; `wb.txn.CommitWith(wb.callback)`
-    let (d, r) := d.commitWith w.txn w.commitTs
+    -- `wb.throttle.Do()`; `wb.txn.CommitWith(wb.callback)` with `txn.commitTs = wb.commitTs`: the
+    -- write applied synchronously, the `CommitRes` is what the callback receives (`Db.commit`
+    -- mirrors `commitPrecheck`, which looks at `pendingWrites` only, and `commitAndSend`)
+    let (d, r) := d.commit w.txn w.commitTs
     let w := match r with
       | .ok _ => w
       | .noop => w
